@@ -233,6 +233,21 @@ def rule_sfx(ctx, res, sizes, skip=()):
     S = 'pico8.sfx.sfx:Sfx'
     try:
         _rule_sfx_accessors(ctx, res, sizes, S)
+        # the statement-form analysis places the ARGUMENT bits; that the
+        # other bits of the note word are kept (read from the byte that is
+        # written back) is decided by evaluating the accessors
+        from . import c17eval
+        try:
+            for (_r, meth, inst, prob) in c17eval.eval_sfx(
+                    ctx, sizes['sfx'])[0]:
+                if meth in ('get_note', 'set_note'):
+                    res.check(prob is None, 'R-C16-sfx', S + '.' + meth,
+                              '{}: {} (evaluated)'.format(meth, inst),
+                              'on symbolic memory, sampled ids / notes',
+                              prob or '', '', semantic=True)
+        except AnalysisError as e2:
+            res.info('R-C16-sfx', S, 'note accessors evaluated',
+                     'not followed: ' + str(e2)[:120])
     except AnalysisError as e:
         # the statement-form analysis cannot follow get_note / set_note:
         # decide the note word layout by evaluating them
